@@ -24,6 +24,7 @@ Poly    == [k |-> "poly", v |-> Scalar]
 Bool    == [k |-> "bool", v |-> Scalar]
 ListOf(v) == [k |-> "list", v |-> v]
 StructT == [k |-> "struct", v |-> Scalar]
+SListT == [k |-> "slist", v |-> Scalar]
 Err(e)  == [k |-> "err", v |-> Scalar, e |-> e]
 IsErr(t) == t.k = "err"
 IsDimLike(t) == t.k \in {"dim", "poly"}
@@ -38,6 +39,11 @@ UnitDim(u) ==
     [] u = "J"                          -> Vec(2, -2, 1)
     [] u = "Hz"                         -> Vec(0, -1, 0)
     [] u = "percent"                    -> Scalar
+    \* units defined by the catalogue (UnitDefTexts): a second base unit of Length, a derived unit, a unit of a new dimension
+    [] u = "zbu"                        -> Vec(1, 0, 0)
+    [] u = "zdu"                        -> Vec(1, -1, 0)
+    [] u = "zau"                        -> Vec(2, 0, 0)
+UnitDefTexts == << "unit zbu: Length", "unit zdu = 3 m / s", "dimension ZAr = Length^2", "unit zau: ZAr = 2 m^2" >>
 
 \* ------------------------------------------------------------- expressions
 E(op, args, name, num, txt) == [op |-> op, args |-> args, name |-> name, num |-> num, txt |-> txt]
@@ -212,11 +218,15 @@ TypeOf(env, e) ==
          IF IsErr(c) THEN c ELSE IF c.k # "bool" THEN Err("condition must be Bool")
          ELSE Unify(TypeOf(env, e.args[2]), TypeOf(env, e.args[3]))
     [] e.op = "list" ->
-         LET t == Unify(TypeOf(env, e.args[1]), TypeOf(env, e.args[2])) IN
-         IF IsErr(t) THEN t ELSE IF t.k = "poly" THEN [k |-> "polylist", v |-> Scalar] ELSE ListOf(t.v)
+         LET t1 == TypeOf(env, e.args[1])
+             t2 == TypeOf(env, e.args[2]) IN
+         IF ~IsErr(t1) /\ ~IsErr(t2) /\ t1.k = "struct" /\ t2.k = "struct" THEN SListT     \* a list of structs ZS
+         ELSE LET t == Unify(t1, t2) IN
+              IF IsErr(t) THEN t ELSE IF t.k = "poly" THEN [k |-> "polylist", v |-> Scalar] ELSE ListOf(t.v)
     [] e.op = "head" ->
          LET t == TypeOf(env, e.args[1]) IN
          IF IsErr(t) THEN t ELSE IF t.k = "list" THEN Dim(t.v) ELSE IF t.k = "polylist" THEN Poly
+         ELSE IF t.k = "slist" THEN StructT
          ELSE Err("expected list")
     [] e.op = "mk" ->
          LET a == Unify(TypeOf(env, e.args[1]), Dim(Vec(1, 0, 0)))
